@@ -37,3 +37,42 @@ Theorem C07_source_delete : forall b col row n p, g_buffer_delete b col row n p 
 Proof. exact tie_buffer_delete. Qed.
 Check C07_source_delete : forall b col row n p, g_buffer_delete b col row n p =~ buf_delete b col row n p.
 Print Assumptions C07_source_delete.
+
+From Avt Require Import Gen.TermFns Proofs.TermTie Proofs.TermTieW Proofs.TermTieX.
+(** SOURCE TIE BY PROOF (translate/term2coq.py -> Gen/TermFns.v, W-mode): the method of `impl Terminal` is REGENERATED from src/terminal.rs on every run as a function over the scalar record `zt` and an abstract world behind the interface `zops` (recorded calls of the buffer / tabs / dirty-line primitives with their evaluated arguments, queries for tab stops / cells / charset translation); instantiated with the model's own primitives (`Om`) it is proved equal to the hand-written model function, panics included: the model performs exactly the primitive calls the Rust text performs - same arguments, order, marked rows, erase modes, case splits *)
+(** Terminal::ich *)
+Theorem C07_source_terminal_ich : forall t n, ZW t -> w_ich Om (zabs t) (wabs t) (Z.of_N n) = wres (ich t n).
+Proof. exact w_ich_eq. Qed.
+Check C07_source_terminal_ich : forall t n, ZW t -> w_ich Om (zabs t) (wabs t) (Z.of_N n) = wres (ich t n).
+Print Assumptions C07_source_terminal_ich.
+
+(** Terminal::dch *)
+Theorem C07_source_terminal_dch : forall t n, ZW t -> w_dch Om (zabs t) (wabs t) (Z.of_N n) = wres (dch t n).
+Proof. exact w_dch_eq. Qed.
+Check C07_source_terminal_dch : forall t n, ZW t -> w_dch Om (zabs t) (wabs t) (Z.of_N n) = wres (dch t n).
+Print Assumptions C07_source_terminal_dch.
+
+(** Terminal::ech *)
+Theorem C07_source_terminal_ech : forall t n, ZW t -> w_ech Om (zabs t) (wabs t) (Z.of_N n) = wres (ech t n).
+Proof. exact w_ech_eq. Qed.
+Check C07_source_terminal_ech : forall t n, ZW t -> w_ech Om (zabs t) (wabs t) (Z.of_N n) = wres (ech t n).
+Print Assumptions C07_source_terminal_ech.
+
+(** Terminal::ed, all four scopes *)
+Theorem C07_source_terminal_ed : forall t sc, ZW t -> w_ed Om (zabs t) (wabs t) sc = wres (ed t sc).
+Proof. exact w_ed_eq. Qed.
+Check C07_source_terminal_ed : forall t sc, ZW t -> w_ed Om (zabs t) (wabs t) sc = wres (ed t sc).
+Print Assumptions C07_source_terminal_ed.
+
+(** Terminal::el, all three scopes *)
+Theorem C07_source_terminal_el : forall t sc, ZW t -> w_el Om (zabs t) (wabs t) sc = wres (el t sc).
+Proof. exact w_el_eq. Qed.
+Check C07_source_terminal_el : forall t sc, ZW t -> w_el Om (zabs t) (wabs t) sc = wres (el t sc).
+Print Assumptions C07_source_terminal_el.
+
+(** Terminal::decaln *)
+Theorem C07_source_terminal_decaln : forall t, ZW t -> w_decaln Om (zabs t) (wabs t) = wres (decaln t).
+Proof. exact w_decaln_eq. Qed.
+Check C07_source_terminal_decaln : forall t, ZW t -> w_decaln Om (zabs t) (wabs t) = wres (decaln t).
+Print Assumptions C07_source_terminal_decaln.
+
